@@ -255,6 +255,53 @@ Proof.
 Qed.
 Print Assumptions C20_env_decode_is_decimal.
 
+(* the converse, so that [decode Decimal] (the model of strconv.Atoi that suite
+   settings compares with the real getters) is characterised completely by the
+   positional specification: it returns [z] EXACTLY for the texts that say [z]
+   (optional sign, one or more decimal digits, nothing else) with [z] an int64 *)
+Theorem C20_env_decode_characterised : forall l z,
+  decode Decimal l = Some z <-> reads_decimal l z /\ in_int64 z = true.
+Proof. exact decode_decimal_iff. Qed.
+Print Assumptions C20_env_decode_characterised.
+
+(* a text that says no int64 number — it is not an optionally signed non-empty
+   string of decimal digits, or the number it says is out of range — is
+   rejected ... *)
+Theorem C20_env_decode_rejects_non_numbers : forall l,
+  (forall z, reads_decimal l z -> in_int64 z = false) -> decode Decimal l = None.
+Proof. exact decode_decimal_rejects. Qed.
+Print Assumptions C20_env_decode_rejects_non_numbers.
+
+(* ... and when one of the four settings is such a text the engine gets no
+   watcher: there is no run and no reaction at all *)
+Theorem C20_env_no_number_no_watcher : forall ts t0 script l,
+  In l [t_i ts; t_n ts; t_p ts; t_c ts] ->
+  (forall z, reads_decimal l z -> in_int64 z = false) ->
+  run_env Decimal ts t0 script = None.
+Proof.
+  intros ts t0 script l HIn H. unfold run_env.
+  rewrite (settings_of_rejects ts l HIn (decode_decimal_rejects l H)). reflexivity.
+Qed.
+Print Assumptions C20_env_no_number_no_watcher.
+
+(* the hypothesis is satisfiable both ways: " 10", "0x10" and "" say no number
+   at all; "9223372036854775808" says 2^63, which is not an int64; and it fails
+   for a text that says an int64 ("010" says 10, C20_env_fires_somewhere) *)
+Example C20_env_rejected_texts :
+  (forall z, ~ reads_decimal [32; 49; 48] z) /\
+  (forall z, ~ reads_decimal [48; 120; 49; 48] z) /\
+  (forall z, ~ reads_decimal [] z) /\
+  (forall z, reads_decimal txt_2p63 z -> in_int64 z = false) /\
+  reads_decimal txt_2p63 9223372036854775808 /\
+  decode Decimal txt_2p63 = None /\
+  run_env Decimal (Texts [49] [50] txt_2p63 [48]) 0 [It false 0 0 0] = None.
+Proof.
+  split; [exact blank_says_nothing|]. split; [exact hex_says_nothing|].
+  split; [exact empty_says_nothing|].
+  split; [|split; [exact txt_2p63_says|split; vm_compute; reflexivity]].
+  intros z R. rewrite (reads_decimal_fun _ _ _ R txt_2p63_says). reflexivity.
+Qed.
+
 (* if the engine gets a watcher at all, it is the watcher model run with the
    numbers the four texts say (seconds for the three durations).
    [secs_fit x] = [Z.abs x <= 9223372036]: the seconds fit a time.Duration.  Go
